@@ -3,14 +3,14 @@ import LogosModel.Spec
 /-!
 # The certificate relating a graph to a definition
 
-`C` is a set of pairs (graph state, derivative vector).  `Valid G prios D C` says that `C` contains
+`C` is a set of pairs (graph state, derivative vector), given as a predicate.  `Valid G prios D C` says that `C` contains
 `(root, D)`, is closed under the graph's byte edges, and that every pair satisfies the local
 simulation conditions `Local`.  `Sound.lean` proves that then the walk equals the reference scan on
 every input.
 -/
 namespace Logos
 
-structure Local (G : Graph) (prios : List Nat) (C : List (Nat × Vec)) (s : Nat) (Δ : Vec) : Prop where
+structure Local (G : Graph) (prios : List Nat) (C : Nat → Vec → Prop) (s : Nat) (Δ : Vec) : Prop where
   early_ok : ∀ l, (G.get s).early = some l → win prios Δ = some l
   pend_byte : ∀ l, win prios Δ = some l → (G.get s).early ≠ some l →
       ∀ b, b < 256 → ∃ t, (G.get s).next b = some t ∧ (G.get t).accept = some l
@@ -19,20 +19,23 @@ structure Local (G : Graph) (prios : List Nat) (C : List (Nat × Vec)) (s : Nat)
   edge : ∀ b, b < 256 → ∀ t, (G.get s).next b = some t →
       (∀ l, (G.get t).accept = some l → win prios Δ = some l) ∧
       (viableV (derivV b Δ) = true ∨ (G.get t).accept.isSome = true) ∧
-      (t, derivV b Δ) ∈ C
+      C t (derivV b Δ)
   noedge : ∀ b, b < 256 → (G.get s).next b = none → viableV (derivV b Δ) = false
   eoi_ok : ∀ t, (G.get s).eoi = some t → ∀ l, (G.get t).accept = some l → win prios Δ = some l
 
 structure WF (g : Graph) : Prop where
   size : 0 < g.states.size
   rootNoRec : (g.get g.root).early = none ∧ (g.get g.root).accept = none
+  /-- no state reached from the root by one byte has a late accept (it would be an empty match) -/
+  rootKid : ∀ b, b < 256 → ∀ t, (g.get g.root).next b = some t → (g.get t).accept = none
   eoiT : ∀ s t, (g.get s).eoi = some t →
-      (g.get t).eoi = none ∧ (g.get t).early = none ∧ (g.get t).accept.isSome = true
+      (g.get t).eoi = none ∧ (g.get t).early = none ∧ (g.get t).accept.isSome = true ∧
+      (g.get t).normal = []
 
-structure Valid (G : Graph) (prios : List Nat) (D : Vec) (C : List (Nat × Vec)) : Prop where
+structure Valid (G : Graph) (prios : List Nat) (D : Vec) (C : Nat → Vec → Prop) : Prop where
   wf : WF G
-  root : (G.root, D) ∈ C
+  root : C G.root D
   noEmpty : win prios D = none
-  loc : ∀ s Δ, (s, Δ) ∈ C → Local G prios C s Δ
+  loc : ∀ s Δ, C s Δ → Local G prios C s Δ
 
 end Logos
